@@ -438,12 +438,12 @@ func driveC12(c *driverCtx) error {
 		var stderr bytes.Buffer
 		cmd.Stderr = &stderr
 		cmd.Env = append(os.Environ(), "GORACE=halt_on_error=0 exitcode=0")
-		err := runWithTimeout(cmd, 5*time.Minute)
+		err := runWithTimeout(cmd, 3*time.Minute)
 		if err == errChildTimeout {
 			// the goroutines never finished: a deadlock (or livelock) between the operations
 			c.rec.NewCase()
-			c.rec.Emit(fmt.Sprintf("C12|stress|run%d", run), map[string]any{"op": "conc_crash", "detail": "the stress process did not finish within 5 minutes (deadlock): " + clipS(stderr.String(), 800)})
-			continue
+			c.rec.Emit(fmt.Sprintf("C12|stress|run%d", run), map[string]any{"op": "conc_crash", "detail": "the stress process did not finish within 3 minutes (deadlock): " + clipS(stderr.String(), 800)})
+			break // one deadlock is enough; every further run would cost the full time limit again
 		}
 		key := fmt.Sprintf("C12|stress|run%d", run)
 		c.rec.NewCase()
